@@ -103,3 +103,28 @@ def _e(prog):
 
 
 KIND_TESTS["E"] = _e
+
+
+def _mv(prog):
+    from rules.props.c20 import live_path_to_drop
+    out = []
+    owners = ["mv::FileWriter", "mv::Job"]
+    for name, expect_bad in (("mv::Job::bad_finish", True), ("mv::Job::good_finish", False), ("mv::Job::good_cleanup", False)):
+        f = prog.need(name)
+        cb, ce = E.success_cuts(f)
+        rets = set(f.return_blocks())
+        bad = False
+        for i, b in enumerate(f.blocks):
+            t = b["term"]
+            if b.get("cleanup") or t["k"] != "drop" or not E.owns_by_value(t["ty"], owners):
+                continue
+            if not (f.reach([i], cut_blocks=cb, cut_edges=ce) & rets):
+                continue
+            rm = {c.bb for c in f.calls_to(REMOVE)}
+            if live_path_to_drop(f, i, t["place"], extra_cut=rm) is not None:
+                bad = True
+        out.append(("MV", name, bad == expect_bad))
+    return out
+
+
+KIND_TESTS["MV"] = _mv
